@@ -8,9 +8,20 @@ from manifest_table import CLAIMED, NOT_APPLICABLE, NOTES   # noqa: E402
 TECH = ('bounded symbolic execution of the real jedi functions (AST read from /repo at run time, '
         'pysym interpreter) + z3/cvc5 SMT refutation of each assertion over all inputs within stated bounds')
 
+sys.path.insert(0, os.environ.get('VERIF_REPO', '/repo'))
+sys.path.insert(0, os.path.join(HERE, '.deps'))
+import importlib   # noqa: E402
+
+
+def obligation_list(pid):
+    mod = importlib.import_module('obligations.' + pid.lower())
+    return ' Obligations decided (id: claim): ' + '; '.join('%s: %s' % (o.id, o.title) for o in mod.OBLIGATIONS) + '.'
+
+
 checks = []
 for pid in sorted(CLAIMED):
-    c = CLAIMED[pid]
+    c = dict(CLAIMED[pid])
+    c['text'] = c['text'] + obligation_list(pid)
     checks.append(dict(
         property_id=pid,
         quick_cmd='./check %s --tier quick' % pid,
